@@ -25,17 +25,36 @@ when(Condition, Goal) :-
         (   Condition ->
             Goal
         ;   term_variables(Condition, Vars),
-            maplist(
-                [Goal, Condition]+\Var^(
-                    get_atts(Var, when_list(Whens0)) ->
-                    Whens = [when(Condition, Goal) | Whens0],
-                    put_atts(Var, when_list(Whens))
-                ;   put_atts(Var, when_list([when(Condition, Goal)]))
-                ),
-                Vars
-            )
+            % one suspension record shared by all variables of the condition;
+            % its first argument is bound as soon as the record has been woken
+            When = when(_Done, Condition, Goal),
+            suspend_on_vars(Vars, When)
         )
     ;   throw(error(domain_error(when_condition, Condition),_))
+    ).
+
+suspend_on_vars([], _).
+suspend_on_vars([Var|Vars], When) :-
+    (   get_atts(Var, when_list(Whens0)) ->
+        (   memberchk_eq(When, Whens0) ->
+            true
+        ;   put_atts(Var, when_list([When | Whens0]))
+        )
+    ;   put_atts(Var, when_list([When]))
+    ),
+    suspend_on_vars(Vars, When).
+
+memberchk_eq(X, [Y|Ys]) :-
+    (   X == Y -> true
+    ;   memberchk_eq(X, Ys)
+    ).
+
+merge_whens([], Whens, Whens).
+merge_whens([W|Ws], Whens0, Whens) :-
+    (   memberchk_eq(W, Whens0) ->
+        merge_whens(Ws, Whens0, Whens)
+    ;   Whens = [W|Whens1],
+        merge_whens(Ws, Whens0, Whens1)
     ).
 
 when_condition(Cond) :-
@@ -58,32 +77,37 @@ remove_goal([G0|G0s], Goal, Goals) :-
         remove_goal(G0s, Goal, Goals1)
     ).
 
-vars_remove_goal(Vars, Goal) :-
-    maplist(
-        Goal+\Var^(
-            get_atts(Var, when_list(Whens0)) ->
-            remove_goal(Whens0, Goal, Whens),
-            (   Whens = [] ->
-                put_atts(Var, -when_list(_))
-            ;   put_atts(Var, when_list(Whens))
-            )
-        ;   true
-        ),
-        Vars
-    ).
+vars_remove_goal([], _).
+vars_remove_goal([Var|Vars], Goal) :-
+    (   get_atts(Var, when_list(Whens0)) ->
+        remove_goal(Whens0, Goal, Whens),
+        (   Whens = [] ->
+            put_atts(Var, -when_list(_))
+        ;   put_atts(Var, when_list(Whens))
+        )
+    ;   true
+    ),
+    vars_remove_goal(Vars, Goal).
 
+% A record can be reached through several variables (bound by the same
+% unification, or aliased before): only the first wake-up re-evaluates it.
 reinforce_goal(Goal0, Goal) :-
+    Goal0 = when(Done, Condition, Goal1),
     Goal = (
-        term_variables(Goal0, Vars),
-        when:vars_remove_goal(Vars, Goal0),
-        Goal0
+        (   var(Done) ->
+            Done = true,
+            term_variables(Goal0, Vars),
+            when:vars_remove_goal(Vars, Goal0),
+            when:when(Condition, Goal1)
+        ;   true
+        )
     ).
 
 verify_attributes(Var, Value, Goals) :-
     (   get_atts(Var, when_list(Whens)) ->
         (   var(Value) ->
             (   get_atts(Value, when_list(WhensValue)) ->
-                append(Whens, WhensValue, WhensNew),
+                merge_whens(Whens, WhensValue, WhensNew),
                 put_atts(Value, when_list(WhensNew))
             ;   put_atts(Value, when_list(Whens))
             ),
@@ -95,8 +119,9 @@ verify_attributes(Var, Value, Goals) :-
 
 gather_when_goals([], _) --> [].
 gather_when_goals([When|Whens], Var) -->
-    ( { term_variables(When, [V0|_]), Var == V0 } ->
-        [when:When]
+    ( { When = when(_, Condition, Goal),
+        term_variables(when(Condition, Goal), [V0|_]), Var == V0 } ->
+        [when:when(Condition, Goal)]
     ;   []
     ),
     gather_when_goals(Whens, Var).
